@@ -3,6 +3,7 @@ use crate::run::Builder;
 pub mod mutex;
 pub mod sem;
 pub mod reuse;
+pub mod gq;
 pub mod io;
 pub mod spawn;
 pub mod timers;
@@ -22,6 +23,7 @@ pub fn lookup(name: &str) -> Option<Builder> {
         "sem" => Some(sem::build),
         "reuse" => Some(reuse::build),
         "cls" => Some(reuse::build_cls),
+        "gq" => Some(gq::build),
         "io" => Some(io::build),
         "io_bulk" => Some(io::build_bulk),
         "spawn" => Some(spawn::build),
